@@ -27,7 +27,9 @@ type p2req struct {
 	BType    int    `json:"btype"` // byte value
 	Resource string `json:"resource"`
 	Data     string `json:"data"`
-	Status   int    `json:"status"`
+	Status   int    `json:"status"`        // base of the scripted status (the manager's type is mixed in, see stFor)
+	Expect   int    `json:"expect"`        // status the manager of the request's OWN branch type returns
+	Raw      bool   `json:"raw,omitempty"` // the manager returns Status as it is (known-finding stream)
 	Fail     bool   `json:"fail"`
 	PanicM   bool   `json:"panic_in_manager"`
 	DelayUs  int    `json:"delay_us"`
@@ -53,6 +55,9 @@ type p2resp struct {
 }
 
 type p2case struct {
+	late     []string
+	Kind     string      `json:"kind"`
+	Known    []string    `json:"known"` // failures inside the predicate of a listed finding
 	Mgrs     []int       `json:"mgrs"`
 	Reqs     []p2req     `json:"reqs"`
 	Consults []p2consult `json:"consults"`
@@ -86,10 +91,28 @@ func (s *scriptedRM) call(method string, res rm.BranchResource) (branch.BranchSt
 	if sc.PanicM {
 		panic("scripted manager panic")
 	}
+	st := branch.BranchStatus(stFor(sc.Status, int(uint8(s.bt)), sc.Fail, sc.Raw))
 	if sc.Fail {
-		return branch.BranchStatus(sc.Status), fmt.Errorf("scripted manager failure")
+		return st, fmt.Errorf("scripted manager failure")
 	}
-	return branch.BranchStatus(sc.Status), nil
+	return st, nil
+}
+
+// statuses a failing manager may return: everything but the two phase-two success statuses
+var failStatuses = []int{0, 1, 2, 3, 4, 6, 7, 9, 10}
+
+// stFor: the status the scripted manager of branch type bt returns for a script with base
+// status `base`. Managers of different types return DIFFERENT statuses for the same
+// (xid, branch id), so a response whose status came from another type's manager is visible.
+func stFor(base, bt int, fail, raw bool) int {
+	if raw {
+		return base
+	}
+	idx := map[int]int{0: 0, 1: 1, 3: 2}[bt]
+	if fail {
+		return failStatuses[(base+3*idx)%len(failStatuses)]
+	}
+	return (base + 3*idx) % 11
 }
 func (s *scriptedRM) BranchCommit(_ context.Context, r rm.BranchResource) (branch.BranchStatus, error) {
 	return s.call("BranchCommit", r)
@@ -159,6 +182,7 @@ func genP2(rng *hutil.Rng, caseNo, n int, malformed bool) []p2req {
 			q.Status = []int{5, 8}[rng.Intn(2)]
 		}
 		q.Fail = rng.Chance(1, 4)
+		q.Expect = stFor(q.Status, q.BType, q.Fail, false)
 		q.PanicM = rng.Chance(1, 25)
 		q.DelayUs = rng.Intn(4) * rng.Intn(800)
 		reqs = append(reqs, q)
@@ -182,10 +206,55 @@ func (q *p2req) body() interface{} {
 	return message.GlobalStatusRequest{AbstractGlobalEndRequest: message.AbstractGlobalEndRequest{Xid: q.Xid}}
 }
 
-func p2Case(r *runner, rng *hutil.Rng, caseNo, n int, malformed bool) *p2case {
+// one phase of a stream: the requests idxs are delivered through the real OnMessage, each in
+// its own goroutine (workers == 0) or by `workers` goroutines that each walk their share
+// one request after the other (long concurrent runs). Bounded: what has not returned within
+// `bound` stays behind (its goroutine is abandoned) and is judged by the oracle.
+func deliverPhase(r *runner, cs *p2case, idxs []int, workers int, bound time.Duration, pan []string) {
+	var wg sync.WaitGroup
+	start := make(chan struct{})
+	one := func(i int) {
+		defer func() {
+			if p := recover(); p != nil {
+				pan[i] = firstLine(fmt.Sprintf("%v", p))
+			}
+		}()
+		q := &cs.Reqs[i]
+		r.handler.OnMessage(r.sess, message.RpcMessage{ID: q.MsgID, Type: message.GettyRequestTypeRequestSync, Codec: 1, Body: q.body()})
+	}
+	if workers == 0 {
+		for _, i := range idxs {
+			wg.Add(1)
+			go func(i int) { defer wg.Done(); <-start; one(i) }(i)
+		}
+	} else {
+		for w := 0; w < workers; w++ {
+			wg.Add(1)
+			go func(w int) {
+				defer wg.Done()
+				<-start
+				for k := w; k < len(idxs); k += workers {
+					one(idxs[k])
+				}
+			}(w)
+		}
+	}
+	close(start)
+	done := make(chan struct{})
+	go func() { wg.Wait(); close(done) }()
+	limit, stopLimit := patient(bound)
+	defer stopLimit()
+	select {
+	case <-done:
+	case <-limit:
+		cs.late = append(cs.late, fmt.Sprintf("request processing did not finish within the bound of %s", bound))
+	}
+}
+
+// runStream: script the managers, deliver the phases, collect consultations and frames, judge
+func runStream(r *runner, cs *p2case, phases [][]int, workers int, bound time.Duration) *p2case {
 	t0 := time.Now()
-	cs := &p2case{Mgrs: registeredTypes()}
-	cs.Reqs = genP2(rng, caseNo, n, malformed)
+	cs.Mgrs = registeredTypes()
 	theP2.mu.Lock()
 	theP2.script = map[string]*p2req{}
 	theP2.consults = nil
@@ -197,32 +266,9 @@ func p2Case(r *runner, rng *hutil.Rng, caseNo, n int, malformed bool) *p2case {
 	r.w.mu.Lock()
 	r.w.all = nil
 	r.w.mu.Unlock()
-	var wg sync.WaitGroup
 	pan := make([]string, len(cs.Reqs))
-	start := make(chan struct{})
-	for i := range cs.Reqs {
-		wg.Add(1)
-		go func(i int) {
-			defer wg.Done()
-			defer func() {
-				if p := recover(); p != nil {
-					pan[i] = firstLine(fmt.Sprintf("%v", p))
-				}
-			}()
-			<-start
-			q := &cs.Reqs[i]
-			r.handler.OnMessage(r.sess, message.RpcMessage{ID: q.MsgID, Type: message.GettyRequestTypeRequestSync, Codec: 1, Body: q.body()})
-		}(i)
-	}
-	close(start)
-	done := make(chan struct{})
-	go func() { wg.Wait(); close(done) }()
-	limit, stopLimit := patient(30 * time.Second)
-	defer stopLimit()
-	select {
-	case <-done:
-	case <-limit:
-		cs.Oracle = append(cs.Oracle, "request processing did not finish within 30 s")
+	for _, ph := range phases {
+		deliverPhase(r, cs, ph, workers, bound, pan)
 	}
 	for i := range cs.Reqs {
 		cs.Reqs[i].Panicked = pan[i]
@@ -246,11 +292,123 @@ func p2Case(r *runner, rng *hutil.Rng, caseNo, n int, malformed bool) *p2case {
 	}
 	r.w.mu.Unlock()
 	p2Oracle(cs)
+	cs.Oracle = append(cs.Oracle, cs.late...)
 	if p := pendingFutures(); p != 0 {
 		cs.Oracle = append(cs.Oracle, fmt.Sprintf("%d entries left in the pending-future table by response sends", p))
 	}
 	cs.Secs = time.Since(t0).Seconds()
 	return cs
+}
+
+func allIdx(n int) []int {
+	l := make([]int, n)
+	for i := range l {
+		l[i] = i
+	}
+	return l
+}
+
+func p2Case(r *runner, rng *hutil.Rng, caseNo, n int, malformed bool) *p2case {
+	cs := &p2case{Kind: "mixed"}
+	cs.Reqs = genP2(rng, caseNo, n, malformed)
+	return runStream(r, cs, [][]int{allIdx(len(cs.Reqs))}, 0, 10*time.Second)
+}
+
+// hammer: `workers` goroutines walk long runs of healthy commit/rollback requests whose branch
+// types alternate from one request to the next, without delays: lookups of DIFFERENT branch
+// types overlap all the time; every response must carry the status of the manager of the
+// request's own type (managers of other types answer the same branch with another status)
+func hammerCase(r *runner, rng *hutil.Rng, caseNo, n, workers int) *p2case {
+	cs := &p2case{Kind: "hammer"}
+	bts := []int{0, 1, 3}
+	for i := 0; i < n; i++ {
+		q := p2req{Idx: i, Code: []int{3, 5}[rng.Intn(2)], MsgID: int32(i), Xid: "10.0.0.9:8091:" + strconv.Itoa(caseNo),
+			Branch: int64(caseNo)*1000000 + int64(i), BType: bts[(i+i/workers)%3], Resource: "r", Status: rng.Intn(11)}
+		q.Expect = stFor(q.Status, q.BType, false, false)
+		cs.Reqs = append(cs.Reqs, q)
+	}
+	return runStream(r, cs, [][]int{allIdx(n)}, workers, 20*time.Second)
+}
+
+// attrition: a long run of failing / panicking / unroutable commits (and a few rollbacks),
+// then healthy requests: earlier failures of OTHER branches must not cost later requests their reply
+func attritionCase(r *runner, rng *hutil.Rng, caseNo, nfail, nok int) *p2case {
+	cs := &p2case{Kind: "attrition"}
+	bts := []int{0, 1, 3}
+	var ph1, ph2 []int
+	for i := 0; i < nfail+nok; i++ {
+		q := p2req{Idx: i, Code: 3, MsgID: int32(1000 + i), Xid: "10.0.0.8:8091:" + strconv.Itoa(caseNo),
+			Branch: int64(caseNo)*1000000 + int64(i), BType: bts[rng.Intn(3)], Resource: "r", Status: rng.Intn(11)}
+		if i < nfail {
+			switch rng.Intn(8) {
+			case 0:
+				q.PanicM = true
+			case 1:
+				q.BType = 9 // no manager: panics in the lookup
+			case 2:
+				q.Code = 5
+				q.Fail = true
+			default:
+				q.Fail = true
+			}
+			ph1 = append(ph1, i)
+		} else {
+			if rng.Chance(1, 4) {
+				q.Code = 5
+			}
+			ph2 = append(ph2, i)
+		}
+		q.Expect = stFor(q.Status, q.BType, q.Fail, false)
+		cs.Reqs = append(cs.Reqs, q)
+	}
+	return runStream(r, cs, [][]int{ph1, ph2}, 0, 5*time.Second)
+}
+
+// lookupHammer: the routing step itself (rm cache: branch type -> manager) under concurrent
+// lookups of different branch types, the way concurrent phase-two requests of different
+// types perform it: every lookup must return the manager registered for the type asked for
+func lookupHammer(workers, per int) (lookups int, wrong []string) {
+	bts := []branch.BranchType{branch.BranchTypeAT, branch.BranchTypeTCC, branch.BranchTypeXA}
+	var mu sync.Mutex
+	var wg sync.WaitGroup
+	for w := 0; w < workers; w++ {
+		wg.Add(1)
+		go func(w int) {
+			defer wg.Done()
+			defer func() {
+				if p := recover(); p != nil {
+					mu.Lock()
+					wrong = append(wrong, fmt.Sprintf("lookup panicked: %v", p))
+					mu.Unlock()
+				}
+			}()
+			for i := 0; i < per; i++ {
+				bt := bts[(i+w)%3]
+				m := rm.GetRmCacheInstance().GetResourceManager(bt)
+				if got := m.GetBranchType(); got != bt {
+					mu.Lock()
+					if len(wrong) < 5 {
+						wrong = append(wrong, fmt.Sprintf("concurrent lookups: the manager handed out for branch type %d is the one registered for branch type %d", bt, got))
+					}
+					mu.Unlock()
+					return
+				}
+			}
+		}(w)
+	}
+	wg.Wait()
+	return workers * per, wrong
+}
+
+// knownCase: the one listed finding (KNOWN_FINDINGS error-with-success-status): a manager that
+// returns an error TOGETHER WITH a phase-two success status
+func knownCase(r *runner, caseNo int) *p2case {
+	cs := &p2case{Kind: "known"}
+	cs.Reqs = []p2req{
+		{Idx: 0, Code: 3, MsgID: 71, Xid: "10.0.0.7:8091:" + strconv.Itoa(caseNo), Branch: int64(caseNo)*1000000 + 1, BType: 1, Resource: "r", Status: 5, Expect: 5, Raw: true, Fail: true},
+		{Idx: 1, Code: 5, MsgID: 72, Xid: "10.0.0.7:8091:" + strconv.Itoa(caseNo), Branch: int64(caseNo)*1000000 + 2, BType: 0, Resource: "r", Status: 8, Expect: 8, Raw: true, Fail: true},
+	}
+	return runStream(r, cs, [][]int{allIdx(2)}, 0, 10*time.Second)
 }
 
 // the property's own statement on the real run
@@ -283,9 +441,9 @@ func p2Oracle(cs *p2case) {
 			}
 			continue
 		}
-		meth, rtype, succ := "BranchCommit", "BranchCommitResponse", 5
+		meth, rtype := "BranchCommit", "BranchCommitResponse"
 		if q.Code == 5 {
-			meth, rtype, succ = "BranchRollback", "BranchRollbackResponse", 8
+			meth, rtype = "BranchRollback", "BranchRollbackResponse"
 		}
 		for _, c := range cn {
 			if c.Mgr != q.BType || c.Method != meth {
@@ -301,24 +459,44 @@ func p2Oracle(cs *p2case) {
 			}
 			continue
 		}
-		if len(cn) != 1 {
+		if len(cn) > 1 || (len(cn) == 0 && (len(rs) > 0 || q.Fail || q.PanicM)) {
 			cs.Oracle = append(cs.Oracle, fmt.Sprintf("%s: manager consulted %d times", name, len(cn)))
 		}
 		if q.Fail || q.PanicM {
+			if len(rs) > 1 {
+				cs.Oracle = append(cs.Oracle, fmt.Sprintf("%s: the manager failed, %d responses were sent", name, len(rs)))
+			}
 			for _, p := range rs {
-				if p.Status == succ || p.RC == int(message.ResultCodeSuccess) {
-					cs.Oracle = append(cs.Oracle, fmt.Sprintf("%s: the manager failed, yet a response reports status %d result code %d", name, p.Status, p.RC))
+				if p.MsgID != q.MsgID || p.Type != rtype {
+					cs.Oracle = append(cs.Oracle, fmt.Sprintf("%s: the manager failed; the response sent is %s id %d", name, p.Type, p.MsgID))
+				}
+				if p.Status == 5 || p.Status == 8 || p.RC == int(message.ResultCodeSuccess) {
+					what := fmt.Sprintf("%s: the manager failed, yet a response reports status %d result code %d", name, p.Status, p.RC)
+					if q.Raw && !q.PanicM && (q.Status == 5 || q.Status == 8) && p.Status == q.Status && p.RC != int(message.ResultCodeSuccess) {
+						// the manager itself returned the success status together with its error
+						cs.Known = append(cs.Known, what)
+					} else {
+						cs.Oracle = append(cs.Oracle, what)
+					}
 				}
 			}
 			continue
 		}
+		if len(rs) == 0 {
+			if len(cn) == 0 {
+				cs.Oracle = append(cs.Oracle, fmt.Sprintf("%s: never reached its manager and got no response within the bound", name))
+			} else {
+				cs.Oracle = append(cs.Oracle, fmt.Sprintf("%s: no response within the bound although the manager returned status %d", name, q.Expect))
+			}
+			continue
+		}
 		if len(rs) != 1 {
-			cs.Oracle = append(cs.Oracle, fmt.Sprintf("%s: the manager returned status %d, %d responses were sent", name, q.Status, len(rs)))
+			cs.Oracle = append(cs.Oracle, fmt.Sprintf("%s: the manager returned status %d, %d responses were sent", name, q.Expect, len(rs)))
 			continue
 		}
 		p := rs[0]
-		if p.MsgID != q.MsgID || p.Status != q.Status || p.Type != rtype {
-			cs.Oracle = append(cs.Oracle, fmt.Sprintf("%s: manager returned status %d; response is %s id %d status %d", name, q.Status, p.Type, p.MsgID, p.Status))
+		if p.MsgID != q.MsgID || p.Status != q.Expect || p.Type != rtype || p.RC != int(message.ResultCodeSuccess) {
+			cs.Oracle = append(cs.Oracle, fmt.Sprintf("%s: the manager of its branch type returns status %d; response is %s id %d status %d result code %d", name, q.Expect, p.Type, p.MsgID, p.Status, p.RC))
 		}
 	}
 	for i, p := range cs.Resps {
@@ -347,12 +525,27 @@ func Run15(args map[string]string) {
 	n := hutil.ArgInt(args, "n", 40)
 	max := hutil.ArgInt(args, "max", 40)
 	var cases []*p2case
-	for i := 0; i < n; i++ {
+	failing := func() int {
+		k := 0
+		for _, c := range cases {
+			if len(c.Oracle) > 0 {
+				k++
+			}
+		}
+		return k
+	}
+	cases = append(cases, knownCase(r, 9001))
+	cases = append(cases, attritionCase(r, rng.Fork(901), 9002, hutil.ArgInt(args, "nfail", 48), 12))
+	for h := 0; h < hutil.ArgInt(args, "hammers", 2) && failing() < 1; h++ {
+		cases = append(cases, hammerCase(r, rng.Fork(uint64(910+h)), 9010+h, hutil.ArgInt(args, "hammer", 6000), 8))
+	}
+	for i := 0; i < n && failing() < 3; i++ {
 		sz := 1 + rng.Intn(max)
 		if i%9 == 0 {
 			sz = 1 + rng.Intn(3)
 		}
 		cases = append(cases, p2Case(r, rng.Fork(uint64(i)), i+1, sz, i%5 == 4))
 	}
-	hutil.WriteJSON(args["out"], map[string]interface{}{"cases": cases, "seed": seed})
+	lookups, wrong := lookupHammer(8, hutil.ArgInt(args, "lookups", 200000))
+	hutil.WriteJSON(args["out"], map[string]interface{}{"cases": cases, "seed": seed, "lookups": lookups, "lookup_wrong": wrong})
 }
